@@ -46,52 +46,33 @@ Proof. exact damage_detected_iff_value_changed. Qed.
 Print Assumptions C09_damage_detected_iff_value_changed.
 
 (* ---------------------------------------------------------------- open_by_id_never_wrong
-   FULL STATEMENT: in a session whose caches are sound, statepoint() of a job opened by id either raises or
-   returns sp with calc_id sp = id.  It is FALSE of the present code in exactly one place, made explicit by
-   the characterisation: the loaded data is None (no file) and the id is md5("null") — then {} is returned
-   (C09_open_by_id_never_wrong_refuted, known finding 2).  Proved without that case (_partial). *)
-Theorem C09_open_by_id_characterised : forall frepr loads_b f s i s' sp,
+   In a session whose caches are sound, statepoint() of a job opened by id either raises or returns sp with
+   calc_id sp = the (resolved) id.  No side condition.  (Before fix: ae33aa8 a missing file was accepted as
+   data None for the directory name md5("null"); the Example C09_example_null_raises shows the present answer.) *)
+Theorem C09_open_by_id_never_wrong : forall frepr loads_b f s i s' sp,
   Inv frepr f s -> open_sp_by_id frepr loads_b f s i = (s', Ok sp) ->
-  exists m, (m = i \/ resolve f WSP i = inl m) /\
-            (cid frepr sp = m \/ (m = cid frepr JNull /\ sp = JObj [] /\ sp_load frepr loads_b f m = Ok JNull)).
-Proof. exact open_by_id_characterised. Qed.
-Print Assumptions C09_open_by_id_characterised.
-
-Theorem C09_open_by_id_never_wrong_partial : forall frepr loads_b f s i s' sp,
-  Inv frepr f s -> open_sp_by_id frepr loads_b f s i = (s', Ok sp) ->
-  (forall m, sp_load frepr loads_b f m = Ok JNull -> False) ->
-  exists m, (m = i \/ resolve f WSP i = inl m) /\ cid frepr sp = m.
-Proof. exact open_by_id_never_wrong_partial. Qed.
-Print Assumptions C09_open_by_id_never_wrong_partial.
-
-Theorem C09_open_by_id_never_wrong_refuted :
-  Inv ex_fr w_fs2 fresh /\
-  (exists s', open_sp_by_id ex_fr w_lb w_fs2 fresh w_null = (s', Ok (JObj []))) /\
-  calc_id ex_fr (JObj []) <> w_null.
-Proof. exact open_by_id_never_wrong_refuted. Qed.
-Print Assumptions C09_open_by_id_never_wrong_refuted.
+  exists m, (m = i \/ resolve_id f i = Ok m) /\ cid frepr sp = m.
+Proof. exact open_by_id_never_wrong. Qed.
+Print Assumptions C09_open_by_id_never_wrong.
 
 (* ---------------------------------------------------------------- repair_restores
-   FULL STATEMENT: after repair(), every damaged job whose state point is in the sound cache, or whose intact
-   file sits in a misnamed directory with a free target, validates.  FALSE of the present code: the loop is
-   left by the first JobsCorruptedError (C09_repair_restores_refuted, known finding 1: the outcome depends on
-   the listing order).  Proved
-     * for cached jobs under "the loop is not left by an exception" (r is not RAbort) — _cached_partial;
-     * for a misnamed directory as a statement about the loop from the moment it reaches that directory —
-       _misnamed_partial (the part of the history before that moment is not covered).
-   Other hypotheses: the id is not md5("null"); no directory is named like a state point file or its temp
-   file (NoSpDirs); the workspace directory exists; the decoders invert the printer and agree on values. *)
-Theorem C09_repair_restores_cached_partial : forall frepr loads_s loads_b,
+   After repair() — for EVERY outcome; the loop is no longer left by an exception (fix: bdc03b3) — every damaged
+   job whose state point is in the sound cache validates (C09_repair_restores_cached: full for this class);
+   a misnamed directory with intact file and free target is moved and validates, stated from the moment the
+   loop reaches it (_misnamed_partial: the part of the history before that moment is not covered).
+   Standing hypotheses: no directory is named like a state point file or its temp file (NoSpDirs); the
+   workspace directory exists; the decoders invert the printer and agree on values. *)
+Theorem C09_repair_restores_cached : forall frepr loads_s loads_b,
   (forall v, loads_s (dumps frepr v) = Some v) -> (forall v, loads_b (dumps frepr v) = DVal v) ->
   (forall b v, loads_b b = DVal v -> loads_s b = Some v) ->
   forall f s ids f' s' r i c sp,
-  NoDup ids -> In i ids -> i <> cid frepr JNull ->
+  NoDup ids -> In i ids ->
   get f [WS] = Some Dir -> NoSpDirs f -> get f (jdir i) = Some Dir ->
   cache_file f = Some c -> In (i, sp) c -> (forall v, In (i, v) c -> cid frepr v = i /\ is_objb v = true) ->
-  repair_in frepr loads_s loads_b f s ids = (f', s', r) -> (forall e l, r <> RAbort e l) ->
+  repair_in frepr loads_s loads_b f s ids = (f', s', r) ->
   valid frepr loads_s f' i = true.
-Proof. exact repair_restores_cached_partial. Qed.
-Print Assumptions C09_repair_restores_cached_partial.
+Proof. exact repair_restores_cached. Qed.
+Print Assumptions C09_repair_restores_cached.
 
 Theorem C09_repair_restores_misnamed_partial : forall frepr loads_s loads_b,
   (forall v, loads_s (dumps frepr v) = Some v) ->
@@ -117,18 +98,6 @@ Theorem C09_repair_keeps_valid : forall frepr loads_s loads_b,
 Proof. intros frepr loads_s loads_b H. exact (loop_keeps_valid frepr loads_s loads_b H). Qed.
 Print Assumptions C09_repair_keeps_valid.
 
-(* the witness: job a has a truncated file, directory x holds the intact file of job t; listed [a; x] the
-   repair is left at a and t stays missing, listed [x; a] t is restored (replayed by harness/c09.py) *)
-Theorem C09_repair_restores_refuted :
-  get w_fs1 (spf w_x) = Some (File (sp_content ex_fr ex_u1)) /\
-  w_lb (dumps ex_fr ex_u1) = DVal ex_u1 /\ calc_id ex_fr ex_u1 = w_t /\ w_t <> w_x /\
-  get w_fs1 (jdir w_t) = None /\ has_children w_fs1 (jdir w_t) = false /\
-  (exists s', repair_in ex_fr w_ls w_lb w_fs1 fresh [w_a; w_x] = (w_fs1, s', RAbort EJobsCorrupted [w_a])) /\
-  valid ex_fr w_ls w_fs1 w_t = false /\
-  (exists f' s' r, repair_in ex_fr w_ls w_lb w_fs1 fresh [w_x; w_a] = (f', s', r) /\ valid ex_fr w_ls f' w_t = true).
-Proof. exact repair_restores_refuted. Qed.
-Print Assumptions C09_repair_restores_refuted.
-
 (* ---------------------------------------------------------------- repair_frame
    repair() changes nothing outside the workspace, and inside it every file other than state point files
    (and the JSON backend's temp name) keeps its bytes and its path relative to its job directory; only the
@@ -139,15 +108,13 @@ Proof. exact repair_frame. Qed.
 Print Assumptions C09_repair_frame.
 
 (* ---------------------------------------------------------------- never accepted: the session after repair
-   FULL STATEMENT (cache soundness is preserved by repair, so that a later open by id or update_cache cannot
-   serve a foreign state point): FALSE — the lookup with validate=False is registered (known finding 3). *)
-Theorem C09_repair_cache_sound_refuted :
-  Inv ex_fr w_fs3 fresh /\
-  exists f' s', repair_in ex_fr w_ls w_lb w_fs3 fresh [w_x; w_a] = (f', s', RCorrupt [w_x]) /\
-                alookup w_x (s_cache s') = Some ex_u0 /\ calc_id ex_fr ex_u0 <> w_x /\
-                (exists s'', open_sp_by_id ex_fr w_lb f' s' w_x = (s'', Ok ex_u0)).
-Proof. exact repair_cache_sound_refuted. Qed.
-Print Assumptions C09_repair_cache_sound_refuted.
+   repair() preserves cache soundness (Inv of C08: every entry of _sp_cache and of the cache file hashes to its
+   key), whatever its outcome: the lookup with validate=False is no longer stored (fix: 3837846).  Together with
+   the C08 invariants no later open by id, find_jobs or update_cache can serve a foreign state point. *)
+Theorem C09_repair_cache_sound : forall frepr loads_s loads_b f s ids f' s' r,
+  Inv frepr f s -> repair_in frepr loads_s loads_b f s ids = (f', s', r) -> Inv frepr f' s'.
+Proof. exact repair_cache_sound. Qed.
+Print Assumptions C09_repair_cache_sound.
 
 (* ---------------------------------------------------------------- licence for the correspondence
    If the implementation agrees with the model on a case (mismatch_C09 c = false) whose listed names are
@@ -162,10 +129,28 @@ Theorem C09_model_holds : forall c,
 Proof. exact model_holds_check. Qed.
 Print Assumptions C09_model_holds.
 
-(* ---------------------------------------------------------------- non-vacuity
-   the hypotheses of the restoration theorems are satisfiable: on the witness project the misnamed directory
-   x, visited first, is moved to its true id t and validates *)
+(* ---------------------------------------------------------------- non-vacuity and the former defect witnesses
+   the hypotheses of the restoration theorems are satisfiable on the witness project *)
 Example C09_example_restores :
   WsOk w_fs1 /\ get w_fs1 (jdir w_x) = Some Dir /\ alookup w_x (s_cache (ensure_read w_fs1 fresh)) = None /\
   w_t <> w_x /\ ~ In w_t [w_a].
 Proof. exact w_fs1_hyps. Qed.
+
+(* job a truncated, directory x = intact file of job t: in both listing orders a is reported, t restored *)
+Example C09_example_repair_continues :
+  valid ex_fr w_ls w_fs1 w_t = false /\
+  (exists f' s', repair_in ex_fr w_ls w_lb w_fs1 fresh [w_a; w_x] = (f', s', RCorrupt [w_a]) /\
+                 valid ex_fr w_ls f' w_t = true) /\
+  (exists f' s', repair_in ex_fr w_ls w_lb w_fs1 fresh [w_x; w_a] = (f', s', RCorrupt [w_a]) /\
+                 valid ex_fr w_ls f' w_t = true).
+Proof. exact ex_repair_continues. Qed.
+
+Example C09_example_null_raises :
+  exists s', open_sp_by_id ex_fr w_lb w_fs2 fresh w_null = (s', Err EJobsCorrupted).
+Proof. exact ex_null_raises. Qed.
+
+Example C09_example_no_poison :
+  exists f' s', repair_in ex_fr w_ls w_lb w_fs3 fresh [w_x; w_a] = (f', s', RCorrupt [w_x]) /\
+                alookup w_x (s_cache s') = None /\
+                (exists s'', open_sp_by_id ex_fr w_lb f' s' w_x = (s'', Err EJobsCorrupted)).
+Proof. exact ex_no_poison. Qed.
